@@ -46,6 +46,8 @@ type Ev struct {
 	Blocking bool // select / channel op
 	Fn       RV   // resolved callee value of a dynamic call
 	Taken    bool // branch events: the edge taken
+	Base     RV   // field load/store events: the (resolved) struct pointer
+	Field    *types.Var
 }
 
 type Path struct {
@@ -65,10 +67,11 @@ type State struct {
 	defers  map[*Frame][]*ssa.Defer
 	trace   []Ev
 	decided map[RV]bool
+	canon   map[string]RV // canonical load of a cell with unknown content
 }
 
 func newState() *State {
-	return &State{mem: map[string]RV{}, bind: map[RV][]RV{}, sel: map[RV]int{}, phi: map[RV]RV{}, visits: map[[2]int]int{},
+	return &State{canon: map[string]RV{}, mem: map[string]RV{}, bind: map[RV][]RV{}, sel: map[RV]int{}, phi: map[RV]RV{}, visits: map[[2]int]int{},
 		defers: map[*Frame][]*ssa.Defer{}, decided: map[RV]bool{}}
 }
 
@@ -95,6 +98,9 @@ func (s *State) clone() *State {
 	for k, v := range s.decided {
 		n.decided[k] = v
 	}
+	for k, v := range s.canon {
+		n.canon[k] = v
+	}
 	n.trace = append([]Ev(nil), s.trace...)
 	return n
 }
@@ -113,6 +119,8 @@ type PPA struct {
 	// TraceBranches records every conditional branch taken as an event
 	// "if" with Args[0] = the (resolved) condition and Taken = edge.
 	TraceBranches bool
+	// TraceLoads records loads of struct fields as events "load:pkg.Type.field".
+	TraceLoads bool
 
 	Paths     []Path
 	Truncated int // paths abandoned at the loop bound
@@ -296,6 +304,11 @@ func (e *PPA) Resolve(st *State, rv RV) RV {
 					rv = val
 					continue
 				}
+				// unknown content: all loads of the cell between two stores are the same value
+				if cv, ok := st.canon[key]; ok {
+					return cv
+				}
+				st.canon[key] = rv
 			}
 			return rv
 		case *ssa.ChangeType:
@@ -323,6 +336,13 @@ func (e *PPA) cellKey(st *State, addr RV) (string, bool) {
 			id = a.F.ID
 		}
 		return fmt.Sprintf("%d:%p", id, v), true
+	case *ssa.FreeVar:
+		// an unbound captured variable (closure analysed on its own)
+		id := 0
+		if a.F != nil {
+			id = a.F.ID
+		}
+		return fmt.Sprintf("%d:fv%p", id, v), true
 	case *ssa.FieldAddr:
 		if k, ok := e.cellKey(st, RV{a.F, v.X}); ok {
 			return fmt.Sprintf("%s.%d", k, v.Field), true
@@ -447,19 +467,35 @@ func (e *PPA) exec(fr *Frame, b *ssa.BasicBlock, i int, st *State, k cont) {
 			val := e.Resolve(st, RV{fr, in.Val})
 			if key, ok := e.cellKey(st, addr); ok {
 				st.mem[key] = val
+				delete(st.canon, key)
 			}
 			lbl := "store:" + Expr(in.Addr)
-			if f := fieldOf(in.Addr); f != nil {
+			ev := Ev{In: in, F: fr, Args: []RV{e.Resolve(st, addr), val}}
+			if fa, ok := in.Addr.(*ssa.FieldAddr); ok {
 				lbl = "store:" + qualField(in.Addr)
+				ev.Base = e.Resolve(st, RV{fr, fa.X})
+				ev.Field = fieldOf(fa)
 			}
-			e.emit(st, Ev{Label: lbl, In: in, F: fr, Args: []RV{e.Resolve(st, addr), val}})
+			ev.Label = lbl
+			e.emit(st, ev)
 		case *ssa.MapUpdate:
-			e.emit(st, Ev{Label: "mapupdate:" + Expr(in.Map), In: in, F: fr, Args: []RV{e.Resolve(st, RV{fr, in.Map}), e.Resolve(st, RV{fr, in.Key}), e.Resolve(st, RV{fr, in.Value})}})
+			ev := Ev{Label: "mapupdate:" + Expr(in.Map), In: in, F: fr, Args: []RV{e.Resolve(st, RV{fr, in.Map}), e.Resolve(st, RV{fr, in.Key}), e.Resolve(st, RV{fr, in.Value})}}
+			ev.Base, ev.Field = loadedField(e, st, RV{fr, in.Map})
+			e.emit(st, ev)
 		case *ssa.Send:
 			e.emit(st, Ev{Label: "send:" + Expr(in.Chan), In: in, F: fr, Blocking: true, Args: []RV{e.Resolve(st, RV{fr, in.Chan}), e.Resolve(st, RV{fr, in.X})}})
 		case *ssa.UnOp:
 			if in.Op == token.ARROW {
 				e.emit(st, Ev{Label: "recv:" + Expr(in.X), In: in, F: fr, Blocking: true, Args: []RV{e.Resolve(st, RV{fr, in.X})}})
+			}
+			if in.Op == token.MUL && e.TraceLoads {
+				if fa, ok := in.X.(*ssa.FieldAddr); ok {
+					e.emit(st, Ev{Label: "load:" + qualField(fa), In: in, F: fr, Base: e.Resolve(st, RV{fr, fa.X}), Field: fieldOf(fa)})
+				}
+			}
+		case *ssa.Field:
+			if e.TraceLoads {
+				e.emit(st, Ev{Label: "load:" + types.TypeString(in.X.Type(), shortQ) + "." + fieldName(in.X.Type(), in.Field), In: in, F: fr, Base: e.Resolve(st, RV{fr, in.X}), Field: fieldVar(in.X.Type(), in.Field)})
 			}
 		case *ssa.Select:
 			n := len(in.States)
@@ -500,7 +536,11 @@ func (e *PPA) exec(fr *Frame, b *ssa.BasicBlock, i int, st *State, k cont) {
 			if _, ok := in.Call.Value.(*ssa.Builtin); ok {
 				name := in.Call.Value.(*ssa.Builtin).Name()
 				if name == "close" || name == "delete" || name == "append" || name == "panic" || name == "copy" {
-					e.emit(st, e.callEv(st, fr, in, "builtin:"))
+					ev := e.callEv(st, fr, in, "")
+					if name == "delete" {
+						ev.Base, ev.Field = loadedField(e, st, RV{fr, in.Call.Args[0]})
+					}
+					e.emit(st, ev)
 				}
 				continue
 			}
@@ -585,6 +625,11 @@ func (e *PPA) forget(st *State, a RV) {
 				delete(st.mem, mk)
 			}
 		}
+		for mk := range st.canon {
+			if mk == key || strings.HasPrefix(mk, key+".") || strings.HasPrefix(mk, key+"[") {
+				delete(st.canon, mk)
+			}
+		}
 	}
 }
 
@@ -600,7 +645,11 @@ func (e *PPA) runDefers(fr *Frame, ds []*ssa.Defer, st *State, k cont) {
 		e.inlineCall(fr, d, &d.Call, callee, st, func(st *State, _ []RV) { e.runDefers(fr, rest, st, k) })
 		return
 	}
-	ev := e.callEv(st, fr, d, "call:")
+	prefix := "call:"
+	if _, isB := d.Call.Value.(*ssa.Builtin); isB {
+		prefix = ""
+	}
+	ev := e.callEv(st, fr, d, prefix)
 	ev.Deferred = true
 	e.emit(st, ev)
 	e.runDefers(fr, rest, st, k)
@@ -657,6 +706,13 @@ func (e *PPA) callEv(st *State, fr *Frame, in ssa.CallInstruction, prefix string
 	}
 	for _, a := range c.Args {
 		ev.Args = append(ev.Args, e.Resolve(st, RV{fr, a}))
+	}
+	// receiver given as the address of a struct field (x.mu.Lock()): remember the struct
+	if len(ev.Args) > 0 {
+		if fa, ok := ev.Args[0].V.(*ssa.FieldAddr); ok {
+			ev.Base = e.Resolve(st, RV{ev.Args[0].F, fa.X})
+			ev.Field = fieldOf(fa)
+		}
 	}
 	return ev
 }
